@@ -21,7 +21,8 @@ OBJ_CLASSES = {
 }
 NAMED_CALLABLES = ['votelib.component.quota.droop', 'votelib.component.quota.hare', 'votelib.component.divisor.d_hondt',
                    'votelib.component.divisor.sainte_lague', 'statistics.mean', 'statistics.median_low', 'builtins.max',
-                   'votelib.component.pairwin_scorer.winning_votes']
+                   'votelib.component.pairwin_scorer.winning_votes',
+                   'votelib.component.quota.imperiali', 'votelib.component.divisor.imperiali']     # one __name__, two registries
 RESERVED = ('type', 'class', 'callable')
 
 
@@ -330,10 +331,10 @@ def hazards_p(p, out):
 
 # ------------------------------------------------------------------------------------------------ generator
 STRS = ['', 'a', 'droop', 'x y', 'Émile Ÿ', 'type', 'votelib.evaluate.core.Plurality', 'not an ident!', '.hidden', 'a.b', '"q"', '#', '漢字', 'A' * 40]
-INTS = [0, 1, -1, 2, 7, 42, -13, 10 ** 30 + 7, -(10 ** 25)]
-FLOATS = ['0.5', '-2.25', '1e+100', '3.0', 'inf', 'nan']
-FRACS = ['1/3', '7/5', '-2/7', '5', '123456789/1000000007', '0']
-DECS = ['0.05', '1.50', '2', '-3.75', '1E+2', '0.000', '12345678901234567890.123456789']
+INTS = [0, 1, -1, 2, 7, 42, -13, 10 ** 30 + 7, -(10 ** 25), 10 ** 9, 2 ** 53 - 1, 2 ** 53, 2 ** 53 + 1, 10 ** 18, 10 ** 400]
+FLOATS = ['0.5', '-2.25', '1e+100', '3.0', 'inf', 'nan', '1.4', '0.1', '0.0', '-0.0', '1.0', '9007199254740992.0', '5e-324']
+FRACS = ['1/3', '7/5', '-2/7', '5', '123456789/1000000007', '0', '1', '333333333333/1000000000000', '333333333334/1000000000000']
+DECS = ['0.05', '1.50', '2', '-3.75', '1E+2', '0.000', '12345678901234567890.123456789', '0', '1', '1.0', '1.4', '0.1234567', '1E-30']
 
 
 class Gen:
@@ -565,3 +566,52 @@ def iteration_order(p):
     if t == 'obj':
         return {'t': t, 'cls': p['cls'], 'p': [[k, iteration_order(v)] for k, v in p['p']]}
     return p
+
+
+def same_typed(a, b):
+    """equality that tells 1 from True from 1.0 from Fraction(1) from Decimal('1') (Python's == does not), recursively"""
+    if type(a) is not type(b):
+        return False
+    if isinstance(a, dict):
+        return list(a.keys()) == list(b.keys()) and all(type(x) is type(y) for x, y in zip(a, b)) \
+            and all(same_typed(a[k], b[k]) for k in a)
+    if isinstance(a, (list, tuple)):
+        return len(a) == len(b) and all(same_typed(x, y) for x, y in zip(a, b))
+    if isinstance(a, float) and a != a:
+        return b != b
+    return a == b
+
+
+ONES = [{'a': 'int', 'v': '1'}, {'a': 'bool', 'v': True}, {'a': 'float', 'v': '1.0'}, {'t': 'frac', 'v': '1'}, {'t': 'dec', 'v': '1'},
+        {'t': 'dec', 'v': '1.0'}, {'t': 'dec', 'v': '1.00'}]
+ZEROS = [{'a': 'int', 'v': '0'}, {'a': 'bool', 'v': False}, {'a': 'float', 'v': '0.0'}, {'a': 'float', 'v': '-0.0'}, {'t': 'frac', 'v': '0'},
+         {'t': 'dec', 'v': '0'}, {'t': 'dec', 'v': '0.0'}, {'a': 'none'}, {'a': 'str', 'v': ''}]
+
+
+def directed_values():
+    """(tag, value): equal values of different types side by side; one callable name in two registries, both orders; wide"""
+    import itertools
+    qi = {'t': 'callable', 'n': 'votelib.component.quota.imperiali', 'self': True}
+    di = {'t': 'callable', 'n': 'votelib.component.divisor.imperiali', 'self': True}
+    for pool, name in ((ONES, 'ones'), (ZEROS, 'zeros')):
+        for perm in (pool, list(reversed(pool)), pool[2:] + pool[:2]):
+            yield 'codec_equal_values_different_types', {'t': 'list', 'v': perm}
+            yield 'codec_equal_values_different_types', {'t': 'tuple', 'v': perm}
+            yield 'codec_equal_values_different_types', {'t': 'dict', 'k': [{'a': 'str', 'v': f'k{i}'} for i in range(len(perm))], 'v': perm}
+            yield 'codec_equal_values_different_types', {'t': 'dict', 'k': [{'t': 'tuple', 'v': [{'a': 'int', 'v': str(i)}]} for i in range(len(perm))],
+                                                         'v': perm}
+        for a, b in itertools.permutations(pool[:5], 2):
+            yield 'codec_equal_values_different_types', {'t': 'obj', 'cls': 'votelib.evaluate.threshold.AbsoluteThreshold',
+                                                         'p': [['threshold', a], ['accept_equal', b]]}
+    for pair in ([qi, di], [di, qi], [qi, di, qi], [di, di, qi]):
+        yield 'codec_same_name_two_registries', {'t': 'list', 'v': pair}
+        yield 'codec_same_name_two_registries', {'t': 'dict', 'k': [{'a': 'str', 'v': f'f{i}'} for i in range(len(pair))], 'v': pair}
+        if pair[0] is not pair[1]:
+            yield 'codec_same_name_two_registries', {'t': 'fset', 'v': pair[:2]}
+            yield 'codec_same_name_two_registries', {'t': 'dict', 'k': pair[:2], 'v': pair[:2][::-1]}
+        yield 'codec_same_name_two_registries', {'t': 'obj', 'cls': 'votelib.evaluate.threshold.AbsoluteThreshold',
+                                                 'p': [['threshold', {'t': 'tuple', 'v': pair}], ['accept_equal', {'t': 'list', 'v': pair[::-1]}]]}
+    yield 'codec_wide', {'t': 'list', 'v': [{'a': 'int', 'v': str(i * i)} for i in range(300)]}
+    yield 'codec_wide', {'t': 'dict', 'k': [{'a': 'str', 'v': f'key{i}'} for i in range(80)], 'v': [{'t': 'frac', 'v': _fs(Fraction(i, 7))} for i in range(80)]}
+    yield 'codec_wide', {'t': 'dict', 'k': [{'a': 'int', 'v': str(i)} for i in range(80)], 'v': [{'t': 'dec', 'v': f'{i}.5'} for i in range(80)]}
+    yield 'codec_wide', {'t': 'fset', 'v': [{'a': 'int', 'v': str(i)} for i in range(2, 120)]}
